@@ -5,11 +5,11 @@ CONSTANTS
   RecHdr = 1
   BatchHdr = 1
   Queues = {0, 1}
-  MaxOps = 4
-  MaxPost = 1
-  MaxCrashes = 1
-  Policy = "always_flush"
-  LossModels = {"process"}
+  MaxOps = 8
+  MaxPost = 3
+  MaxCrashes = 3
+  Policy = "do_nothing"
+  LossModels = {"process", "power"}
   GcAlwaysSyncs = TRUE
   OpenSizesLast = TRUE
   PayLens = {2, 9}
@@ -18,8 +18,8 @@ CONSTANTS
   MaxDamage = 0
   DamageKinds = {}
   CrcQuarantinesBlock = FALSE
-  MinOpsBeforeCrash = 0
+  MinOpsBeforeCrash = 5
 INIT MCInit
 NEXT MCNext
-INVARIANTS VerdictOk Refines NextAboveAssigned BatchAtomic FilesBound BytesTrack BufInv ZerosAhead
+INVARIANTS VerdictOk Refines BatchAtomic BufInv
 CHECK_DEADLOCK FALSE
